@@ -243,7 +243,7 @@ func runBehaviour(ctx context.Context, b J, emit func(J)) {
 				s.obj = e.New()
 			case "NewEmpty":
 				ot := s.schemaType.(types.ObjectType)
-				s.tf = types.Object{AttrTypes: ot.AttrTypes}
+				s.tf = types.Object{AttrTypes: ot.AttrTypes, Null: jb(step, "null"), Unknown: jb(step, "unk")}
 				if !jb(step, "nilattrs") {
 					s.tf.Attrs = map[string]attr.Value{}
 				}
